@@ -157,3 +157,11 @@ def product_states(loc, N):
         except yastn.YastnError:
             pass
     return out
+
+
+def same_outer(a, b):
+    """identical outer virtual legs (needed for sums)"""
+    try:
+        return a.virtual_leg('first') == b.virtual_leg('first') and a.virtual_leg('last') == b.virtual_leg('last')
+    except Exception:
+        return False
